@@ -36,14 +36,16 @@ ASSUMPTIONS = [
     "USE_JIT off (library runs as plain Python)",
 ]
 BUDGET = {
-    "quick": dict(cases=300, shards=4, timeout=900),
-    "thorough": dict(cases=2000, shards=16, timeout=3000),
+    "quick": dict(cases=600, shards=4, timeout=900),
+    "thorough": dict(cases=3000, shards=16, timeout=3000),
 }
 CLASSES = [
     "basic", "staggered", "wide", "exhaustive", "peaky", "unbatched", "iters_edge",
     "open_ended", "v1", "rnn", "lookup", "advance_direct", "staggered", "wide",
 ]
-_Q = {  # measured on the unchanged tree, seed 0, 4 x 260 cases; floors are ~1/3 of (measured x 220/260)
+# measured on the unchanged tree, seed 0, 1040 cases; a floor is a quarter of what the tier's
+# number of cases is expected to produce
+_Q = {
     "BeamSearch": 3284, "beam_search_advance(step hook)": 8440, "beam_search_advance": 72,
     "HashLM.calc_idx_log_probs": 7488, "lm-state-live-rows": 33112,
     "assert:lm-state-follows-path": 10422, "assert:lm-conditioning-follows-element": 10422,
@@ -53,26 +55,22 @@ _Q = {  # measured on the unchanged tree, seed 0, 4 x 260 cases; floors are ~1/3
     "assert:exhaustive-set": 545, "assert:step-chosen-are-best": 13281,
     "assert:step-prefix-follows-src": 60575,
 }
+_QC = dict({c: 72 for c in set(CLASSES)}, **{
+    "finish_spread>=2": 157, "filler_slots": 576, "exhaustive_condition": 243, "reordered": 703,
+    "frozen_while_others_run": 205, "negative_eos_index": 162, "max_iters_unset": 76,
+})
+
+
+def _floors(tier, sets, distinct):
+    f = BUDGET[tier]["cases"] * BUDGET[tier]["shards"] / 1040.0 * 0.25
+    return {"events": {k: int(v * f) for k, v in _Q.items()},
+            "classes": {k: int(v * f) for k, v in _QC.items()},
+            "sets": sets, "distinct": distinct}
+
+
 FLOORS = {
-    "quick": {
-        "events": {k: int(v * 0.28) for k, v in _Q.items()},
-        "classes": dict({c: 25 for c in set(CLASSES)}, **{
-            "finish_spread>=2": 45, "filler_slots": 160, "exhaustive_condition": 70,
-            "reordered": 200, "frozen_while_others_run": 60, "negative_eos_index": 45,
-            "max_iters_unset": 20,
-        }),
-        "sets": {"src-trajectory": 170, "finish-steps": 60},
-        "distinct": 200,
-    },
-    "thorough": {
-        "events": {k: int(v * 0.28 * 20) for k, v in _Q.items()},
-        "classes": dict({c: 500 for c in set(CLASSES)}, **{
-            "finish_spread>=2": 900, "filler_slots": 3000, "exhaustive_condition": 1400,
-            "reordered": 4000, "frozen_while_others_run": 1200, "negative_eos_index": 900,
-        }),
-        "sets": {"src-trajectory": 3000, "finish-steps": 300},
-        "distinct": 4000,
-    },
+    "quick": _floors("quick", {"src-trajectory": 350, "finish-steps": 100}, 450),
+    "thorough": _floors("thorough", {"src-trajectory": 4000, "finish-steps": 500}, 8000),
 }
 EXHAUSTIVE = {"quick": False, "thorough": False}
 TOL, RTOL = 1e-4, 1e-5
